@@ -1,4 +1,5 @@
 import DclabModel.Lemmas.Http
+import DclabModel.Lemmas.HttpFault
 /-!
 # C19 — Remote range-cached access returns the bytes of the resource
 
@@ -312,5 +313,136 @@ theorem history_chunk0_pinned (sv : Server) (cfg : Cfg) :
     intro st h
     simp only [run]
     exact ih _ (step_keeps_zero sv cfg st op h)
+
+end DclabModel.C19
+
+namespace DclabModel.C19
+open DclabModel.Http
+
+/-! ## Transient download failures (`Model/HttpFault.lean`)
+
+`readF n budget` is a `read(n)` during which the `budget+1`-th download raises.  The
+specification treats a failed read as a no-op that reports the failure; which reads failed is
+read off the outputs (`failedFlags`). -/
+
+/-- one operation under faults: same visible result as the specification (a failed read moves
+nothing), invariant kept -/
+theorem stepF_refines (sv : Server) (cfg : Cfg) (hcs : 0 < cfg.cs) (hk : 2 ≤ cfg.keep)
+    (st : St) (op : OpF) (hinv : Inv sv cfg st.cache)
+    (hvalid : match op.readLen with
+      | some n => 0 ≤ st.pos ∧ 0 ≤ n ∧ st.pos + n ≤ sv.len
+      | none => True) :
+    (stepF sv cfg st op).2 =
+      (specStepF sv st.pos op (decide ((stepF sv cfg st op).2 = .ioError))).2 ∧
+    (stepF sv cfg st op).1.pos =
+      (specStepF sv st.pos op (decide ((stepF sv cfg st op).2 = .ioError))).1 ∧
+    Inv sv cfg (stepF sv cfg st op).1.cache := by
+  cases op with
+  | plain op =>
+    simp only [stepF, specStepF]
+    exact step_refines sv cfg hcs hk st op hinv
+      (by cases op <;> simp [OpF.readLen] at hvalid ⊢ <;> exact hvalid)
+  | readF n budget =>
+    simp only [OpF.readLen] at hvalid
+    obtain ⟨hp, hn, hle⟩ := hvalid
+    have hneg : ¬ (st.pos < 0 ∨ n < 0) := by omega
+    rcases readRangeF_cases sv cfg st st.pos.toNat (st.pos.toNat + n.toNat) budget hcs hk hinv with
+      ⟨st', h1, h2, h3⟩ | h
+    · have e : stepF sv cfg st (.readF n budget) = (st', .ioError) := by
+        simp only [stepF, hneg, if_false, h1]
+      rw [e]
+      simp [specStepF, h2, h3]
+    · obtain ⟨st'', hr, hinv'', _⟩ := readRange_spec sv cfg st st.pos.toNat
+        (st.pos.toNat + n.toNat) hcs hk (by omega) (by unfold Server.len at *; omega) hinv
+      rw [hr] at h
+      have e : stepF sv cfg st (.readF n budget) =
+          ({ st'' with pos := if n > 0 then st.pos + n else sv.len },
+           .data ((sv.blob.drop st.pos.toNat).take (st.pos.toNat + n.toNat - st.pos.toNat))) := by
+        simp only [stepF, hneg, if_false, h, Res.ofOpt]
+      rw [e]
+      simp only [Nat.add_sub_cancel_left]
+      have hd : decide ((Out.data ((sv.blob.drop st.pos.toNat).take n.toNat)) = Out.ioError) = false := by
+        simp
+      rw [hd]
+      simp only [specStepF, specStep, hneg, if_false, Bool.false_eq_true]
+      refine ⟨?_, ?_, hinv''⟩ <;> first | rfl | trivial
+
+/-- **Refinement under faults.** For every history of seek/tell/read operations in which any
+number of reads are hit by a download failure at any point of their chunk loop: every output is
+that of the specification in which the failed reads are no-ops — later reads return exactly
+`blob[pos:pos+n]` at the position the *successful* operations define; a failure neither moves
+the position nor corrupts the cache. -/
+theorem faulty_history_refines (sv : Server) (cfg : Cfg) (hcs : 0 < cfg.cs) (hk : 2 ≤ cfg.keep) :
+    ∀ (ops : List OpF) (st : St), Inv sv cfg st.cache →
+      ValidFromF sv st.pos ops (failedFlags (runF sv cfg st ops).2) →
+      (runF sv cfg st ops).2 = (specRunF sv st.pos ops (failedFlags (runF sv cfg st ops).2)).2 ∧
+      (runF sv cfg st ops).1.pos = (specRunF sv st.pos ops (failedFlags (runF sv cfg st ops).2)).1 ∧
+      Inv sv cfg (runF sv cfg st ops).1.cache := by
+  intro ops
+  induction ops with
+  | nil => intro st hinv _; exact ⟨rfl, rfl, hinv⟩
+  | cons op ops ih =>
+    intro st hinv hv
+    simp only [runF, failedFlags, List.map_cons, ValidFromF, List.headD_cons, List.tail_cons] at hv ⊢
+    obtain ⟨hv1, hv2⟩ := hv
+    obtain ⟨ho, hp, hi⟩ := stepF_refines sv cfg hcs hk st op hinv hv1
+    simp only [specRunF, List.headD_cons, List.tail_cons]
+    rw [← hp] at hv2 ⊢
+    obtain ⟨h1, h2, h3⟩ := ih _ hi hv2
+    exact ⟨by rw [← ho]; exact congrArg _ h1, h2, h3⟩
+
+/-- a read that fails leaves the position where it was and the cache correct -/
+theorem failed_read_changes_nothing (sv : Server) (cfg : Cfg) (hcs : 0 < cfg.cs) (hk : 2 ≤ cfg.keep)
+    (st : St) (n : Int) (budget : Nat) (hinv : Inv sv cfg st.cache)
+    (hv : 0 ≤ st.pos ∧ 0 ≤ n ∧ st.pos + n ≤ sv.len)
+    (hfail : (stepF sv cfg st (.readF n budget)).2 = .ioError) :
+    (stepF sv cfg st (.readF n budget)).1.pos = st.pos ∧
+    Inv sv cfg (stepF sv cfg st (.readF n budget)).1.cache := by
+  obtain ⟨_, hp, hi⟩ := stepF_refines sv cfg hcs hk st (.readF n budget) hinv hv
+  rw [hfail] at hp
+  exact ⟨by simpa [specStepF] using hp, hi⟩
+
+/-- **Retry.** If a read fails, repeating it returns exactly the bytes it was asked for. -/
+theorem retry_returns_bytes (sv : Server) (cfg : Cfg) (hcs : 0 < cfg.cs) (hk : 2 ≤ cfg.keep)
+    (st : St) (n : Int) (budget : Nat) (hinv : Inv sv cfg st.cache)
+    (hv : 0 ≤ st.pos ∧ 0 ≤ n ∧ st.pos + n ≤ sv.len)
+    (hfail : (stepF sv cfg st (.readF n budget)).2 = .ioError) :
+    (step sv cfg (stepF sv cfg st (.readF n budget)).1 (.read n)).2 =
+      .data ((sv.blob.drop st.pos.toNat).take n.toNat) := by
+  obtain ⟨hp, hi⟩ := failed_read_changes_nothing sv cfg hcs hk st n budget hinv hv hfail
+  have := (step_refines sv cfg hcs hk _ (.read n) hi (by rw [hp]; exact hv)).1
+  rw [this, hp]
+  have hneg : ¬ (st.pos < 0 ∨ n < 0) := by omega
+  simp [specStep, hneg]
+
+/-- an operation without injected fault never reports an I/O error -/
+theorem plain_never_fails (sv : Server) (cfg : Cfg) (hcs : 0 < cfg.cs) (hk : 2 ≤ cfg.keep)
+    (st : St) (op : Op) (hinv : Inv sv cfg st.cache)
+    (hvalid : match op with
+      | .read n => 0 ≤ st.pos ∧ 0 ≤ n ∧ st.pos + n ≤ sv.len
+      | _ => True) :
+    (stepF sv cfg st (.plain op)).2 ≠ .ioError := by
+  simp only [stepF]
+  rw [(step_refines sv cfg hcs hk st op hinv hvalid).1]
+  exact specStep_ne_ioError sv st.pos op
+
+/-- non-vacuity: a three-chunk read whose second download fails, a `tell`, the retry, and a
+read served from the cache although no download is allowed any more -/
+example : (runF { blob := [1, 2, 3, 4, 5, 6], oob := [9] } { cs := 2, keep := 2 } St.init
+    [.readF 5 1, .plain .tell, .plain (.read 5), .plain (.seek 0 0), .readF 1 0]).2
+    = [.ioError, .pos 0, .data [1, 2, 3, 4, 5], .unit, .data [1]] := by
+  decide
+
+example : ValidFromF { blob := [1, 2, 3, 4, 5, 6], oob := [9] } 0
+    [.readF 5 1, .plain .tell, .plain (.read 5), .plain (.seek 0 0), .readF 1 0]
+    [true, false, false, false, false] := by
+  decide
+
+/-- what the property forbids (and a seeded change did): moving the position before the
+download makes the retry return other bytes — in the specification a failed read is a no-op -/
+theorem advance_before_download_witness :
+    (specRunF { blob := [1, 2, 3, 4], oob := [] } 0 [.readF 2 0, .plain (.read 2)] [true, false]).2
+      = [.ioError, .data [1, 2]] := by
+  decide
 
 end DclabModel.C19
